@@ -168,6 +168,41 @@ def _mk_qfnia():
     return z3.SolverFor('QF_NIA')
 
 
+def _factor_over_sum(n, d):
+    """if d = t + (non-negative others) and n = t * rest syntactically, return rest (then n/d <= rest)"""
+    if not (is_sym(n) and is_sym(d)):
+        return None
+    try:
+        dn = z3.simplify(d)
+        nn = z3.simplify(n, som=True)
+    except Exception:
+        return None
+    if not (z3.is_app(dn) and dn.decl().kind() == z3.Z3_OP_ADD):
+        return None
+    if not (z3.is_app(nn) and nn.decl().kind() == z3.Z3_OP_MUL):
+        return None
+    nch = nn.children()
+    for t in dn.children():
+        if z3.is_int_value(t):
+            if t.as_long() < 0:
+                return None
+            continue
+        if z3.is_app(t) and t.decl().kind() == z3.Z3_OP_MUL:
+            ch = t.children()
+            if z3.is_int_value(ch[0]) and ch[0].as_long() < 0:
+                return None
+    for t in dn.children():
+        if z3.is_int_value(t):
+            continue
+        for i, f in enumerate(nch):
+            if f.eq(t):
+                others = [x for j, x in enumerate(nch) if j != i]
+                if not others:
+                    return z3.IntVal(1)
+                return others[0] if len(others) == 1 else z3.Product(*others)
+    return None
+
+
 class SolverCtx:
     """One per explored path: the incremental solver, path condition, fresh names,
     the division memo and statistics."""
@@ -177,6 +212,7 @@ class SolverCtx:
         self.cur_timeout_ms = timeout_ms
         self.seed = seed
         self.last_solver = None
+        self._defining = False
         self.pc = []
         self.n = 0
         self.divmemo = {}
@@ -184,6 +220,8 @@ class SolverCtx:
         self.qsrc = {}
         self.bounds = {}
         self.pinned = []
+        self.wit = None
+        self._wit_pairs = None
         self.icache = {}
         self.sqrtmemo = {}
         self.uf = {}
@@ -298,20 +336,96 @@ class SolverCtx:
                     return False
         return None
 
+    # ---- concrete witness (concolic): an assignment known to satisfy the current pc
+    def set_witness(self, values):
+        """values: name -> int/bool for the input variables"""
+        self.wit = dict(values)
+        self._wit_pairs = None
+        # the assignment must satisfy what is already asserted
+        for c in self.pc:
+            if self.weval(c) is not True:
+                self.wit = None
+                return False
+        return True
+
+    def _model(self):
+        if self._wit_pairs is None:
+            m = z3.Model()
+            for k, v in self.wit.items():
+                if isinstance(v, bool):
+                    m.update_value(z3.Bool(k), z3.BoolVal(v))
+                else:
+                    m.update_value(z3.Int(k), z3.IntVal(v))
+            self._wit_pairs = m
+        return self._wit_pairs
+
+    def weval(self, t):
+        """value of t under the witness, or None"""
+        if self.wit is None:
+            return None
+        if isinstance(t, (bool, int)):
+            return t
+        try:
+            r = self._model().eval(t, model_completion=False)
+        except Exception:
+            return None
+        if z3.is_int_value(r):
+            return r.as_long()
+        if z3.is_true(r):
+            return True
+        if z3.is_false(r):
+            return False
+        return None
+
+    def wit_define(self, var, value):
+        if self.wit is None:
+            return
+        if value is None:
+            self.wit = None
+            return
+        self.wit[var.decl().name()] = value
+        if self._wit_pairs is not None:
+            self._wit_pairs.update_value(var, z3.IntVal(value) if not isinstance(value, bool) else z3.BoolVal(value))
+
+    def witness_from_model(self, m):
+        w = {}
+        try:
+            for d in m.decls():
+                if d.arity() != 0:
+                    continue
+                v = m[d]
+                if z3.is_int_value(v):
+                    w[d.name()] = v.as_long()
+                elif z3.is_true(v):
+                    w[d.name()] = True
+                elif z3.is_false(v):
+                    w[d.name()] = False
+        except Exception:
+            self.wit = None
+            return
+        self.wit = w
+        self._wit_pairs = None
+
     def fresh(self, base, sort='int'):
         self.n += 1
         name = '%s!%d' % (base, self.n)
         if sort == 'int':
             return z3.Int(name)
-        return z3.Bool(name)
+        b = z3.Bool(name)
+        self.wit_define(b, False)
+        return b
 
     def add(self, c):
         if c is True:
             return
         if c is False:
             self.pc.append(z3.BoolVal(False))
+            self.wit = None
             return
         self.pc.append(c)
+        if self.wit is not None and not self._defining:
+            if self.weval(c) is not True:
+                self.wit = None
 
     def check(self, *extra):
         """returns 'sat' | 'unsat' | 'unknown' for pc ∧ extra"""
@@ -409,11 +523,26 @@ class SolverCtx:
                 return ex
         q = self.fresh('q')
         r = self.fresh('r')
+        if self.wit is not None:
+            nv, dv = self.weval(toz(n)), self.weval(toz(d))
+            if isinstance(nv, int) and isinstance(dv, int) and dv > 0 and nv >= 0:
+                self.wit_define(q, nv // dv)
+                self.wit_define(r, nv % dv)
+            else:
+                self.wit = None
+        self._defining = True
         self.add(z3.And(toz(n) == q * toz(d) + r, r >= 0, r < toz(d), q >= 0))
         nlo, nhi = self.interval(n)
         dlo, dhi = self.interval(d)
         qlo = 0 if (nlo is None or dhi is None or dhi <= 0 or nlo < 0) else nlo // dhi
         qhi = None if (nhi is None or dlo is None or dlo <= 0) else nhi // dlo
+        # a*t/(t+others) <= a : the AMM core shape  y*o/(x+o)
+        rest = _factor_over_sum(n, d)
+        if rest is not None:
+            self.add(q <= rest)
+            rlo, rhi = self.interval(rest)
+            if rhi is not None and (qhi is None or rhi < qhi):
+                qhi = rhi
         self.set_bounds(q, qlo, qhi)
         self.set_bounds(r, 0, None if dhi is None else dhi - 1)
         if qhi is not None:
@@ -430,6 +559,7 @@ class SolverCtx:
         self.bydiv.setdefault(dk, []).append((q, r, zn))
         self.divmemo[key] = (q, r, n, d)
         self.qsrc[q.get_id()] = (n, d)
+        self._defining = False
         return q
 
     def fmod(self, n, d):
@@ -449,7 +579,16 @@ class SolverCtx:
         if key in self.sqrtmemo:
             return self.sqrtmemo[key][0]
         r = self.fresh('sqrt')
+        if self.wit is not None:
+            nv = self.weval(n)
+            if isinstance(nv, int) and nv >= 0:
+                import math
+                self.wit_define(r, math.isqrt(nv))
+            else:
+                self.wit = None
+        self._defining = True
         self.add(z3.And(r >= 0, r * r <= n, (r + 1) * (r + 1) > n))
+        self._defining = False
         self.sqrtmemo[key] = (r, n)
         return r
 
